@@ -62,7 +62,12 @@ namespace glm
 		{
 			GLM_STATIC_ASSERT(std::numeric_limits<genType>::is_iec559 || GLM_CONFIG_UNRESTRICTED_FLOAT, "'round' only accept floating-point inputs");
 
-			return x < static_cast<genType>(0) ? static_cast<genType>(int(x - static_cast<genType>(0.5))) : static_cast<genType>(int(x + static_cast<genType>(0.5)));
+			// Round half away from zero without going through int: same result as std::round for every value,
+			// including |x| >= 2^31, 0.49999997f, signed zeros, infinities and NaN
+			genType const Abs = x < static_cast<genType>(0) ? -x : x;
+			genType const Floor = std::floor(Abs);
+			genType const Rounded = Abs - Floor >= static_cast<genType>(0.5) ? Floor + static_cast<genType>(1) : Floor;
+			return x < static_cast<genType>(0) ? -Rounded : Rounded;
 		}
 #	endif
 
